@@ -220,9 +220,18 @@ func RunC07(c *Ctx) {
 					maskBits = workload.NewRand(c.Seed, h.Hash(d)+uint64(mask)).Uint64()
 				}
 				pr := &probe{doc: d}
+				skipWithShared := mask%3 == 2 // the handler finds the end with SkipValue on the traversal's own Buffer
 				pr.answer = func(i, off int, data []byte) (int, error) {
 					if maskBits>>(uint(i)%64)&1 == 0 {
 						return 0, nil
+					}
+					if skipWithShared {
+						c.Rec.C("exact_ends_found_with_SkipValue_on_the_shared_buffer")
+						pe, serr := rjson.SkipValue(data, &long)
+						if serr != nil {
+							return 0, serr // the handler's own validation failed: propagate its error
+						}
+						return pe, nil
 					}
 					e := me.end(off)
 					if e < 0 {
@@ -363,7 +372,19 @@ func RunC09(c *Ctx) {
 						c.Rec.C("handler_returned_a_library_error_value")
 					}
 					pr := &probe{doc: d}
+					// every fourth program: the handler also USES the traversal's own Buffer (SkipValue on
+					// its member, the documented re-entrant sharing) before it answers, the failing call
+					// included (seeded change C09r6-m1: the handler's error lost when the nested call had
+					// grown the shared stack beyond the outer traversal's)
+					var shared *rjson.Buffer
+					if k%2 == 0 && errCounter%4 == 1 {
+						shared = &long
+						c.Rec.C("programs_whose_handler_reenters_with_the_traversals_buffer")
+					}
 					pr.answer = func(i, o int, data []byte) (int, error) {
+						if shared != nil {
+							rjson.SkipValue(data, shared)
+						}
 						if i == k {
 							return off, sentinel
 						}
